@@ -10,8 +10,9 @@ PROPS = {
         families=["pool", "strpool", "stream"],
         family="pool",
         theorems=T("C19", "fault_safe", "fault_safe_destructible", "fault_safe_usable", "fault_only_when_scheduled", "throw_only_bad_alloc",
-                   "fault_safe_reachable", "asFound_allocate_badFree", "asFound_allocate_doubleFree", "asFound_assignCopy_useAfterFree"),
-        slices_by_family={"pool": {"quick": 32, "thorough": 64}, "strpool": {"quick": 16, "thorough": 32}, "stream": {"quick": 16, "thorough": 32}},
+                   "fault_safe_reachable", "asFound_allocate_badFree", "asFound_allocate_doubleFree", "asFound_assignCopy_useAfterFree",
+                   "stream_step_fault_safe", "stream_append_fault_safe", "stream_append_char_fault_safe", "stream_fault_then_destructible"),
+        slices_by_family={"pool": {"quick": 32, "thorough": 64}, "strpool": {"quick": 16, "thorough": 32}, "stream": {"quick": 8, "thorough": 16}},
         rule="buffer level (family pool): for two (quick) / four (thorough) element types, every target size class x every source size class (6x6), after 2 / 5 kinds "
              "of prefix, every operation of a 37-entry menu with its allocation failing (a buffer member allocates at most once) and with the next one failing (control), "
              "plus seeded random histories followed by a random operation with its allocation failing. String level (family strpool): every allocating ST::string "
